@@ -36,7 +36,10 @@ MINIMUMS = {
 }
 
 FNS = [kinds.node, kinds.node2, kinds.two, kinds.three, kinds.Base, kinds.Other, kinds.Mid,
-       kinds.target3, kinds.tagged_fn, kinds.DCTagged]
+       kinds.target3, kinds.tagged_fn, kinds.DCTagged,
+       # bound classmethods: equal to, but not identical with, their own deep copies (methods bound
+       # to an instance are left out: deepcopy copies the instance, and the copy is another callable)
+       kinds.Meth.cmake, kinds.MethSub.cmake]
 POS_FNS = [kinds.posnode, kinds.PosInit, sigs.g_ab_c_va, sigs.g_a1_b2_va_k_vk]
 LEAVES = [0, 1, -7, 2.5, 'a', 'a longer string value to make containers big enough', None, True,
           (1, 2), (), ('x', (3, 4)), kinds.Color.RED, kinds.two, b'b',
